@@ -11,7 +11,6 @@ fn key(k: &DataKey) -> Val {
 
 // HARNESS props=C09 tier=quick profile=gw_xs shape="delay,last,now: full u64; last present/absent; enforce symbolic"
 #[kani::proof]
-#[kani::unwind(42)]
 fn c09_update_rotation_timestamp() {
     let env = Env::default();
     let gw = Address(1);
